@@ -228,6 +228,33 @@ pub fn batch(engine: &dyn Engine, a: &BatchArgs) -> i32 {
         deadline_hit: false,
     };
     let mut harness_errors: Vec<String> = Vec::new();
+    let mut site_model: BTreeMap<String, String> = BTreeMap::new();
+    if a.prop == "C14" {
+        // the scheduler's model of every instrumented lock site, read from the sources this binary
+        // was built against (see sitelint.rs)
+        for (site, kind) in crate::sitelint::classify() {
+            match kind {
+                crate::sitelint::Kind::Unknown => {
+                    println!(
+                        "HARNESS-ERROR: instrumented lock site `{}`: the acquisition of the probed lock cannot be found after the hook (neither blocking nor try); the scheduler's model of that site is invalid",
+                        site
+                    );
+                    return 2;
+                }
+                crate::sitelint::Kind::NonBlocking => {
+                    println!("note: lock site `{}` is a try-acquisition in these sources: the scheduler lets the thread through when the lock is busy", site);
+                    site_model.insert(site, "try-acquisition (thread proceeds when busy)".to_string());
+                }
+                crate::sitelint::Kind::Blocking => {
+                    site_model.insert(site, "blocking acquisition (thread waits)".to_string());
+                }
+            }
+        }
+        if site_model.is_empty() {
+            println!("HARNESS-ERROR: no instrumented lock site found under {}", crate::sitelint::gluon_root().display());
+            return 2;
+        }
+    }
 
     // (worker index, next run index)
     let mut pending: Vec<(u64, u64)> = (0..a.workers).map(|w| (w, w)).collect();
@@ -567,6 +594,7 @@ pub fn batch(engine: &dyn Engine, a: &BatchArgs) -> i32 {
             "sensitivity_recorded": sensitivity,
             "violations_reported": reported,
             "harness_errors": harness_errors,
+            "lock_site_model": site_model,
             "workers": a.workers,
         },
         "assumptions": info.assumptions,
